@@ -966,6 +966,89 @@ func vC03ProbeNegativeStart(t testing.TB, res *vResult) {
 	res.Note(fmt.Sprintf("probe NewReader(-1, committed) on log {0} with hw=-1: delivered [%s] end=%q (model precondition 0 <= start; partition.getStartOffset clamps negative offsets to 0)", vC03Ranges(offs), end))
 }
 
+// vC03SegmentReplaced: a committed reader whose segment is REPLACED underneath it (compaction rewrites every segment
+// but the newest; a tail truncation rewrites the segment it cuts) re-attaches itself and goes on - still as a
+// committed reader: nothing above the HW, offsets strictly increasing, and everything committed that is still
+// retained from its position on. The HW stays below the log end for the whole scenario.
+func vC03SegmentReplaced(t testing.TB, res *vResult, rnd *vRand) {
+	rounds := 40
+	if vThorough() {
+		rounds = 800
+	}
+	fails := 0
+	for round := 0; round < rounds && fails < 3; round++ {
+		mode := []string{"clean", "truncate"}[rnd.Intn(2)]
+		n := 8 + rnd.Intn(12)
+		v := &vLogImpl{t: t}
+		if mode == "clean" {
+			v.exec("begin 150 0 compact=1")
+		} else {
+			v.exec("begin 1048576 0")
+		}
+		for i := 0; i < n; i++ {
+			v.l.Append([]*Message{{MagicByte: 1, Timestamp: int64(i + 1), Key: []byte{'k', byte('0' + rnd.Intn(3))}, Value: vC03Val(int64(i), rnd.Intn(30)), Offset: -1}})
+		}
+		hw := int64(n/2 + rnd.Intn(n/4+1))
+		v.l.SetHighWatermark(hw)
+		before := 1 + rnd.Intn(3)
+		line := fmt.Sprintf("segment-replaced mode=%s n=%d hw=%d read-before=%d", mode, n, hw, before)
+		r, err := v.l.NewReader(0, false)
+		if err != nil {
+			res.Fail(vFailure{Kind: "disagreement", Case: []string{line}, Detail: "NewReader: " + err.Error()})
+			v.close()
+			return
+		}
+		buf := make([]byte, 28)
+		var got []int64
+		next := int64(0)
+		read := func(max int, wait time.Duration) {
+			for k := 0; k < max; k++ {
+				ctx, cancel := context.WithTimeout(context.Background(), wait)
+				_, off, _, _, err := r.ReadMessage(ctx, buf)
+				cancel()
+				if err != nil {
+					return
+				}
+				got = append(got, off)
+				next = off + 1
+			}
+		}
+		read(before, 300*time.Millisecond)
+		nBefore := len(got)
+		if mode == "clean" {
+			if err := v.l.Clean(); err != nil {
+				res.Fail(vFailure{Kind: "disagreement", Case: []string{line}, Detail: "Clean: " + err.Error()})
+			}
+		} else {
+			if err := v.l.Truncate(hw + 1 + int64(rnd.Intn(n-1-int(hw)))); err != nil {
+				res.Fail(vFailure{Kind: "disagreement", Case: []string{line}, Detail: "Truncate: " + err.Error()})
+			}
+		}
+		want := append(append([]int64(nil), got...), v.retainedIn(next, hw)...)
+		read(n+2, 150*time.Millisecond)
+		res.Count(line, true)
+		res.Dist("segment-replaced:" + mode)
+		var fail, tag string
+		for i, o := range got {
+			if o > hw && fail == "" {
+				fail, tag = fmt.Sprintf("a committed reader was handed offset %d, HW = %d (after its segment was replaced by a %s)", o, hw, mode), "committed-reader-above-hw"
+			}
+			if i > 0 && o <= got[i-1] && fail == "" {
+				fail, tag = fmt.Sprintf("offset %d delivered after %d", o, got[i-1]), "committed-reader-duplicate"
+			}
+		}
+		if fail == "" && fmt.Sprint(got) != fmt.Sprint(want) {
+			fail, tag = fmt.Sprintf("read %d messages, then a %s replaced the reader's segment; delivered [%s], committed and retained from there on: [%s]",
+				nBefore, mode, vC03Ranges(got), vC03Ranges(want)), "committed-not-delivered"
+		}
+		if fail != "" {
+			fails++
+			res.Fail(vFailure{Kind: "spec", Case: []string{line}, Detail: fail, Tag: tag})
+		}
+		v.close()
+	}
+}
+
 // vC03ConcurrentHW: "while a partition is open its high watermark never moves backwards" with SEVERAL writers.
 // The writers are started while the log's mutex is held, so that all of them are inside SetHighWatermark when
 // it is released (the only way to overlap them without hooks); an observer samples HighWatermark() throughout.
@@ -1227,6 +1310,7 @@ func TestVerifC03(t *testing.T) {
 
 	// (g) several HW writers at once (a leader has two: the commit loop and the replication-factor-1 fast path)
 	vC03ConcurrentHW(t, res, rnd)
+	vC03SegmentReplaced(t, res, rnd)
 
 	// (d) free-running stress
 	total := 5 * time.Second
